@@ -173,17 +173,22 @@ def faults_leg(ck, tier):
     kinds = {'truncated-group': truncated, 'closed': lambda d: [fakenet.EOF], 'withheld': lambda d: [fakenet.STALL],
              'other-message': lambda d: [wire.frame(bytes([3]) + wire.u32(0)), fakenet.EOF],
              # a whole, well-formed group message whose modulus admits no exponent (p = 1): that probe yields nothing - and leaves nothing behind for the next one
-             'degenerate-group': lambda d: [wire.frame(bytes([31]) + wire.mpint(1) + wire.mpint(2))]}
+             'degenerate-group': lambda d: [wire.frame(bytes([31]) + wire.mpint(1) + wire.mpint(2))],
+             # the group arrives whole, the answer to the client's KEX_DH_GEX_INIT never does (closed / silent): the group was handed out all the same
+             'reply-closed': ('gexreply', lambda d: [fakenet.EOF]), 'reply-withheld': ('gexreply', lambda d: [fakenet.STALL])}
     scs, meta = [], []
     for ai, a in enumerate(arch):
         for kname, fn in sorted(kinds.items()):
+            msgkind = 'gexgroup'
+            if isinstance(fn, tuple):
+                msgkind, fn = fn
             for k in range(1, 13 if tier == 'quick' else 19):
                 for view in (('-n',) if (k + ai) % 3 else ('-n', '-j')):
                     cfg = server_cfg(a)
                     state = {'seen': 0}
 
-                    def mutate(n, kind, idx, data, k=k, fn=fn, state=state):
-                        if kind == 'gexgroup':
+                    def mutate(n, kind, idx, data, k=k, fn=fn, state=state, msgkind=msgkind):
+                        if kind == msgkind:
                             state['seen'] += 1
                             if state['seen'] == k:
                                 return fn(data)
@@ -223,7 +228,7 @@ def faults_leg(ck, tier):
             for n, ans in handed.get(alg, []):
                 if ans:
                     nth += 1
-                    if nth != k:
+                    if nth != k or kname.startswith('reply-'):
                         whole.setdefault(alg, set()).add(ans)
         bad = False
         for alg, shown in ((GEX1, s1), (GEX256, s256)):
